@@ -75,6 +75,9 @@ WlRolloutID(s) == IF s.wl.rid # "" THEN s.wl.rid ELSE RidName(s.wl.kind, WlCanar
    exists and is done (expectation observed) afterwards.  Result: [s, retry]. *)
 WithGrace(s, action, modified) ==
   LET gf == SeqToSet(s.mem.gf)  gold == SeqToSet(s.mem.gold) IN
+  IF s.net.grace0      \* gracePeriodSeconds = 0: "no need to wait"; an expectation left over is observed
+  THEN [s |-> [s EXCEPT !.mem.gf = SetToSeq(gf \ {action}), !.mem.gold = SetToSeq(gold \ {action})], retry |-> FALSE, mod |-> modified]
+  ELSE
   IF modified
   THEN [s |-> [s EXCEPT !.mem.gf = SetToSeq(gf \cup {action}), !.mem.gold = SetToSeq(gold \ {action})], retry |-> TRUE, mod |-> TRUE]
   ELSE IF action \in gf THEN [s |-> s, retry |-> TRUE, mod |-> FALSE]
@@ -156,7 +159,7 @@ DoTrafficRouting(s) ==
   LET st == s.plan[s.ro.step] IN
   IF ~HasProvider(s) \/ ~HasTraffic(st) THEN [s |-> s, done |-> TRUE]
   ELSE IF ~s.net.hasSvc THEN [s |-> s, done |-> FALSE]
-  ELSE IF s.ro.fresh THEN [s |-> s, done |-> FALSE]                        \* wait the grace period after the last change
+  ELSE IF s.ro.fresh THEN [s |-> s, done |-> FALSE]                        \* wait the grace period after the last change (0 means the default here)
   ELSE LET svcStep ==
              IF s.net.noCanarySvc THEN [s |-> s, mod |-> FALSE, stop |-> FALSE]
              ELSE IF s.ro.stableRev = 0 \/ s.ro.podHash = 0 THEN [s |-> s, mod |-> FALSE, stop |-> TRUE]
@@ -720,14 +723,14 @@ UserSet(s, a) ==
     [] a \in {"user.delete", "user.deleteidle"} -> {IF s.ro.finalizer THEN [s EXCEPT !.user.deleted = TRUE, !.ro.deleting = TRUE]
                               ELSE [s EXCEPT !.user.deleted = TRUE, !.ro = GoneRo]}
     [] a = "user.release2" -> {Release(s, 2)}
-    [] a = "user.release3" -> {Release(s, 3)}
+    [] a \in {"user.release3", "user.release3late"} -> {Release(s, 3)}
     [] a = "user.rollback" -> {[Release(s, 1) EXCEPT !.user.rolledBack = TRUE]}
-    [] a = "user.scale"    -> {[s EXCEPT !.wl.R = r, !.wl.genOk = FALSE] : r \in (1..12) \ {s.wl.R}}
+    [] a = "user.scale"    -> {DepDerive([s EXCEPT !.wl.R = r, !.wl.genOk = FALSE]) : r \in (1..12) \ {s.wl.R}}
     [] a \in JumpActs -> {[s EXCEPT !.ro.next = JumpTargetOf(a)]}
     [] OTHER -> {s}
 
 \* ------------------------------------------------------------ the step function
-UserActs == {"user.approve", "user.pause", "user.resume", "user.disable", "user.enable", "user.delete", "user.deleteidle", "user.release2",
+UserActs == {"user.approve", "user.pause", "user.resume", "user.disable", "user.enable", "user.delete", "user.deleteidle", "user.release2", "user.release3late",
              "user.release3", "user.rollback", "user.scale"} \cup JumpActs
 EnvActs  == {"env.observe", "env.update", "env.ready", "env.unready", "env.scale"}
 
